@@ -76,7 +76,23 @@ def generate(tier, seed, enum_keys):
                     buf = list(ctx)
                     set_bits(buf, start, width, v)
                     lines.append("%s %s 0" % (dec, bytes(buf).hex()))
-        # all aux modes x NA / non-NA codes of the shared field are covered by the exhaustive 2-bit fields above;
+        # every small selector field (aux mode, 1/2-bit flags) x every boundary / not-available candidate code of every
+        # wider field, in the zero and the all-ones context: mode-dependent fields decode per mode, and each mode has
+        # its own not-available code (0x7FFF signed, 0xFFFF unsigned)
+        selectors = [(st, w) for _, st, w, e in fields if w <= 2 and not e]
+        for sst, sw in selectors:
+            for name, start, width, is_enum in fields:
+                if width < 7 or is_enum or (start, width) == (sst, sw):
+                    continue
+                top = (1 << width) - 1
+                specials = sorted(set([0, 1, top, top - 1, top >> 1, (top >> 1) + 1, (top >> 1) - 1]))
+                for mode in range(1 << sw):
+                    for ctx in contexts[:2]:
+                        for v in specials:
+                            buf = list(ctx)
+                            set_bits(buf, start, width, v)
+                            set_bits(buf, sst, sw, mode)
+                            lines.append("%s %s 0" % (dec, bytes(buf).hex()))
         # C08: all lengths 0..64, cap == len and spare poisoned capacity, three contents
         for L in range(0, 65):
             for content in ("zero", "ones", "random"):
